@@ -4,7 +4,7 @@
 enum { K_EMIT_A = 50, K_NOISE = 51, K_QUERY_B = 52, K_HELLO_X = 53 };
 // K_EMIT_A: blob = descriptors (kind, pause, src_sel, dst_sel as 1 byte each => 4 bytes per descriptor); a: seq
 //   src_sel: 0 = A's address, 1..3 = other addresses ; dst_sel: 0 = B, 1..3 = third stations
-// K_NOISE: a: which (0 probe between third stations, 1 foreign Hello to both, 2 probe from third station to A, 3/4 large-TLV requests, 5 unrelated probe to B, 6 the mapper's Discover again: service, generation, acknowledging)
+// K_NOISE: a: which (7 the mapper's quick-discovery Reset, 0 probe between third stations, 1 foreign Hello to both, 2 probe from third station to A, 3/4 large-TLV requests, 5 unrelated probe to B, 6 the mapper's Discover again: service, generation, acknowledging)
 
 static Verdict run(const Case &c) {
     Verdict v;
@@ -16,6 +16,9 @@ static Verdict run(const Case &c) {
     if (A == B) B = mac_from_u64(mac_to_u64(A) ^ 0x0100);
     cb.mac = B;
     int ia = w.add_if(ca), ib = w.add_if(cb);
+    // a third responder C on the same segment (same host, same core): it hears every broadcast, is looked up between A's and B's frames, and must not matter
+    IfCfg cc = h.ifcfg(); cc.mac = mac_from_u64(mac_to_u64(B) ^ 0x020000); if (cc.mac == A) cc.mac = mac_from_u64(mac_to_u64(A) ^ 0x040000);
+    int ic3 = c.c(9, 1) ? w.add_if(cc) : -1;
     Mac M = h.st_real(0);
     auto third = [&](int k) { return mac_from_u64(0x0400F0000000ULL + (uint64_t)k); };
     auto srcsel = [&](int k) { return k == 0 ? A : k == 250 ? B : mac_from_u64(0x0400CC000000ULL + (uint64_t)k); };   // k in 0..255: A itself or a spoofed source
@@ -26,6 +29,7 @@ static Verdict run(const Case &c) {
     std::set<std::pair<int, uint64_t>> kinds_b;
     (void)w.deliver(ia, mk_discover(M, M, 0, 1, 1, {}));
     (void)w.deliver(ib, mk_discover(M, M, 0, 1, 1, {}));
+    if (ic3 >= 0) (void)w.deliver(ic3, mk_discover(M, M, 0, 1, 1, {}));
     bool queried = false;
     auto query_b = [&](uint16_t seq0) {
         std::vector<QDesc> got;
@@ -85,9 +89,14 @@ static Verdict run(const Case &c) {
                         : k == 2 ? mk_simple(A, third(1), 0, OP_TRAIN, A, third(1), 0)
                         : k == 5 ? mk_simple(B, srcsel(1 + (int)(op.arg(1, 1) & 1)), 0, OP_PROBE, B, third(1), 0)   // unrelated probe to B whose Ethernet source coincides with a source A is told to spoof
                         : k == 6 ? mk_discover(M, M, (uint8_t)(op.arg(1) & 1), (uint16_t)(op.arg(1) >> 1), (uint16_t)op.arg(2), k == 6 && (op.arg(1) & 2) ? std::vector<Mac>{A, B} : std::vector<Mac>{})   // the mapper repeats its Discover (either service, any generation, acknowledging or not)
+                        : k == 7 ? mk_simple(BCAST, M, 1, OP_RESET, BCAST, M, 0)     // the mapper resets its quick-discovery session: topology observations stay
                         : k == 3 ? mk_qlt(A, third(2), A, third(2), (uint16_t)op.arg(1, 1), 0x11, 0, 1)     // quick-discovery request from another station
                                  : mk_qlt(A, M, A, M, (uint16_t)op.arg(1, 1), 0x0E, 0, 0);                  // the mapper fetches the icon in between
-                (void)w.deliver(ib, f); (void)w.deliver(ia, f);
+                if (k == 6 || k == 7) {   // broadcasts reach everybody: A, then C, then B
+                    (void)w.deliver(ia, f); if (ic3 >= 0) (void)w.deliver(ic3, f); (void)w.deliver(ib, f);
+                    if (k == 7) { Bytes d = mk_discover(M, M, 0, 2, 1, {}); (void)w.deliver(ia, d); if (ic3 >= 0) (void)w.deliver(ic3, d); (void)w.deliver(ib, d); }   // ... and M opens its topology session again at once (it stays the mapper)
+                }
+                else { (void)w.deliver(ib, f); (void)w.deliver(ia, f); }
                 break;
             }
             case K_QUERY_B: query_b((uint16_t)op.arg(0)); break;
@@ -114,8 +123,10 @@ int main(int argc, char **argv) {
               "non-trivial = >= 2 frames towards B of different kind or source and >= 1 towards a third station, and B was queried; distinct = digest of the case";
     auto gen = rc::gen::exec([] {
         HCfg h = *hg::cfg_gen();
+        if (*gx::chance(3)) h.own = (uint64_t)*gx::pick({0x000000000000LL, 0xFFFFFFFFFFFFLL, 0x000000000001LL, 0xFFFFFFFFFFFELL});   // "arbitrary addresses": whatever the platform reports as A's address is what B must report
         Case c; h.to_case(c);
         c.cfg.push_back(0x020000000000LL | *gx::range<int64_t>(1, 0xFFFFFF));   // B's address (cfg[8])
+        c.cfg.push_back(*gx::pick({1, 1, 1, 0}));                                 // a third responder on the segment (cfg[9])
         if (*gx::chance(20)) {
             // capacity family: A emits about as many frames with pairwise distinct sources towards B as one QueryResp of B holds, then B is queried
             size_t capq = (h.mtu - 34) / 20, cape = (h.mtu - 34) / 14;
@@ -146,7 +157,7 @@ int main(int argc, char **argv) {
                     o.blob.push_back((uint8_t)*gx::pick({0, 0, 0, 1, 2, 200, 250}));
                     o.blob.push_back((uint8_t)*gx::pick({0, 0, 0, 1, 2, 3}));
                 }
-            } else if (k <= 7) { o.kind = K_NOISE; o.a = {*gx::range<int64_t>(0, 6), *hg::seq_gen(), *hg::gen_gen()}; }
+            } else if (k <= 7) { o.kind = K_NOISE; o.a = {*gx::range<int64_t>(0, 7), *hg::seq_gen(), *hg::gen_gen()}; }
             else { o.kind = K_QUERY_B; o.a = {*hg::seq_gen()}; }
             return o;
         })));
